@@ -560,14 +560,14 @@ fn main() {
     let args = parse_args();
     let mut rng = Rng::new(args.seed);
     let thorough = args.tier == "thorough";
-    let mut cases = Cases::new("From V Require Import Base.Util Gql.Ast Writer.Wop C15.Model C15.Spec C15.Corr.", "case", "agree", "holds", if thorough { 60 } else { 24 });
+    let mut cases = Cases::new("From V Require Import Base.Util Gql.Ast Writer.Wop C15.Model C15.Spec C15.Corr.", "case", "agree", "holds", if thorough { 16 } else { 12 });
     let mut distinct: HashSet<String> = HashSet::new();
     let mut st = Stats::default();
     let mut direct_failures: Vec<serde_json::Value> = vec![];
     let mut samples: Vec<serde_json::Value> = vec![];
 
     // ---- stream 1: both routes on generated models
-    let n_models = if thorough { 700 } else { 90 };
+    let n_models = if thorough { 400 } else { 64 };
     let docs_per = if thorough { 6 } else { 5 };
     for i in 0..n_models {
         let special = i % 15 == 14; // a schema definition that leaves `mutation` out while a type is called Mutation
@@ -662,7 +662,7 @@ fn main() {
     }
 
     // ---- stream 2: mutated and malformed introspection results
-    let n_json = if thorough { 6000 } else { 900 };
+    let n_json = if thorough { 5000 } else { 700 };
     for i in 0..n_json {
         let m = small_model(&mut rng);
         let style = if rng.chance(1, 2) { Style::Full } else { Style::Minimal };
